@@ -14,23 +14,28 @@ const mergeDirName = "-merge"
 
 // Merge 立即执行 Merge 过程
 func (db *DB) Merge() error {
+	// 方法仅部分逻辑需加锁, 不应 defer
+	// 状态校验与 merge 状态的更新需在同一临界区内完成, 避免与写入操作竞争或同时进行多个 merge
+	db.mu.Lock()
+
 	// 校验数据是否为空
 	if db.activeFile == nil {
+		db.mu.Unlock()
 		return nil
 	}
 
 	// 校验是否满足 merge 条件
 	if err := db.mergeCheck(); err != nil {
+		db.mu.Unlock()
 		return err
 	}
-
-	// 方法仅部分逻辑需加锁, 不应 defer
-	db.mu.Lock()
 
 	// 更新 merge 状态
 	db.isMerging = true
 	defer func() {
+		db.mu.Lock()
 		db.isMerging = false
+		db.mu.Unlock()
 	}()
 
 	// 当前活跃文件同样加入参与 merge 的集合
